@@ -163,6 +163,128 @@ def include_name_cases():
     return fails
 
 
+def sack_cases(tier):
+    """spec/DemandSort.tla: every DAG x linear extension x hidden set"""
+    cases, stats = [], []
+    for n in ((3,) if tier == "quick" else (3, 4)):
+        res = run_tlc("DemandSort", {"N": n},
+                      invariants=["NoDuplicate", "OrderedSoFar", "KnownIsOut", "StackFresh", "ResultComplete",
+                                  "OnlyExpected", "DDump"],
+                      properties=["DTermination"] if n == 3 else [], spec="DSpec", prefix=("DSORT",),
+                      on_line=lambda t, b: cases.append(json.loads(b)))
+        if not res.ok:
+            raise MachineryError("DemandSort: %s" % res.error)
+        stats.append(res.stats)
+    return cases, stats
+
+
+def sack_worker(cases, lay_by_key, extra):
+    res = {"fails": [], "n": 0, "samples": [], "nontrivial": 0, "same_sequence": 0, "other_sequence": 0}
+    work = tempfile.mkdtemp(prefix="vfsack-", dir=extra.get("scratch"))
+    try:
+        for ci, c in enumerate(cases):
+            deps = {i + 1: list(d) for i, d in enumerate(c["deps"])}
+            src, hidden, model_out = list(c["src"]), set(c["hidden"]), list(c["result"])
+            kinds = CL.sack_kinds(deps, hidden)
+            n_inc = (ci + len(hidden)) % 3 if len(src) > 2 else 0
+            main, inc = CL.sack_header(deps, src, kinds, n_inc)
+            sub = os.path.join(work, "s%d" % ci)
+            os.makedirs(os.path.join(sub, "incdir"))
+            path = os.path.join(sub, "defs.hpp")
+            with open(path, "w") as f:
+                f.write(main)
+            if inc:
+                with open(os.path.join(sub, "incdir", "inc.hpp"), "w") as f:
+                    f.write(inc)
+            res["n"] += 1
+            if any(deps.values()):
+                res["nontrivial"] += 1
+            base = {"check": "sack order", "deps": deps, "src": src, "hidden": sorted(hidden), "header": main,
+                    "included_header": inc, "kinds": {k: list(v) for k, v in kinds.items()}}
+            status, nodes, errtext = CL.run_main([path, "--sack", "-I", os.path.join(sub, "incdir"), "--python_out", sub])
+            if status != "ok":
+                res["fails"].append(dict(base, what="prophyc --sack failed on a valid header: %s %s" % (nodes, errtext[:300])))
+                continue
+            names = [x.name for x in nodes["defs"] if type(x).__name__ != "Include"]
+            nm = {n: CL.sack_model_name(n, kinds) for n in deps}
+            want = sorted(nm[n] for n in model_out)
+            if sorted(names) != want:
+                res["fails"].append(dict(base, what="output lists %r; the definitions visible at the top level and "
+                                         "everything they use are %r (each exactly once)" % (names, want), output=names))
+                continue
+            pos = {n: names.index(nm[n]) for n in model_out}
+            bad = [(n, d) for n in model_out for d in deps[n] if pos[d] > pos[n]]
+            if bad:
+                n, d = bad[0]
+                res["fails"].append(dict(base, what="output order %r: %s comes before its dependency %s"
+                                         % (names, nm[n], nm[d]), output=names))
+                continue
+            res["same_sequence" if names == [nm[n] for n in model_out] else "other_sequence"] += 1
+            try:
+                P.import_generated(sub, "defs")
+            except P.CompileFailure as e:
+                res["fails"].append(dict(base, what="generated Python module does not import: %s" % e, output=names))
+                continue
+            lay, idx = lay_by_key[json.dumps([sorted(deps.items()), sorted(hidden)])]
+            by_name = {x.name: x for x in nodes["defs"] if type(x).__name__ != "Include"}
+            for n in model_out:
+                node = by_name[nm[n]]
+                w = lay[idx[n] - 1]
+                got = (node.byte_size, node.alignment) if kinds[n][0] != "enum" else (4, 4)
+                if got != (w["size"], w["align"]):
+                    res["fails"].append(dict(base, what="layout of %s is %r for header order %r; layout rules give "
+                                             "(%d, %d)" % (node.name, got, src, w["size"], w["align"])))
+            if len(res["samples"]) < 1 and len(model_out) > 2 and hidden:
+                res["samples"].append({"deps": deps, "src": src, "hidden": sorted(hidden), "output": names})
+            shutil.rmtree(sub, ignore_errors=True)
+    finally:
+        shutil.rmtree(work, ignore_errors=True)
+    return res
+
+
+def sack_leg(rep, tier):
+    import prophyc.parsers.sack as sack
+    if not sack.SackParser.check():
+        rep.cov["sack"] = "libclang not available: the sack leg did not run"
+        return
+    cases, stats = sack_cases(tier)
+    for st in stats:
+        rep.add_tlc(st)
+    keys, envs, idxs, seen = [], [], [], set()
+    for c in cases:
+        deps = {i + 1: list(d) for i, d in enumerate(c["deps"])}
+        key = json.dumps([sorted(deps.items()), sorted(c["hidden"])])
+        if key in seen:
+            continue
+        seen.add(key)
+        defs, idx = CL.sack_env_for_graph(deps, CL.sack_kinds(deps, set(c["hidden"])))
+        keys.append(key)
+        envs.append(defs)
+        idxs.append(idx)
+    lays, st = wire.layout_of(envs)
+    rep.add_tlc(st)
+    lay_by_key = {}
+    for key, l, idx in zip(keys, lays, idxs):
+        if not l["legal"]:
+            raise MachineryError("sack graph rendering produced an environment the specification calls illegal")
+        lay_by_key[key] = (l["lay"], idx)
+    jobs = _chunks(cases, NCPU)
+    with ProcessPoolExecutor(max_workers=NCPU) as ex:
+        results = list(ex.map(sack_worker, jobs, [lay_by_key] * len(jobs), [{"scratch": scratch_dir("sack")}] * len(jobs)))
+    same = other = n = 0
+    for r in results:
+        rep.count(r["n"])
+        rep.validated(r["n"])
+        n += r["n"]
+        same += r["same_sequence"]
+        other += r["other_sequence"]
+        for s_ in r["samples"][:1]:
+            rep.sample(s_)
+        for f in r["fails"]:
+            rep.violation(f, shadows.match("C15", f))
+    rep.cov["sack"] = {"headers": n, "output_sequence_equals_DemandSort": same, "other_valid_sequence": other}
+
+
 def c15(tier, replay):
     rep = Report("C15", tier)
     rep.assumptions = [
@@ -172,7 +294,10 @@ def c15(tier, replay):
         "each (graph, order) is rendered as isar XML twice: all definitions structs (the input order reaches the sort "
         "unchanged), mixed kinds (constants, enums, typedefs, structs, unions; isar regroups by kind) and types only "
         "with frequent unions (unions of unions, structs of unions, discriminators named by enumerators)",
-        "sack front-end not exercised"]
+        "sack front-end (spec/DemandSort.tla): every DAG x every linear extension (C++ wants a type defined before "
+        "it is used by value) x every choice of definitions the front-end only builds on demand (unions, classes, "
+        "namespace members, typedef-named anonymous structs), on 3 nodes (quick) and 4 nodes (thorough), rendered as "
+        "C++ headers (some definitions in an included header) -> prophyc --sack; -S isar supplements not exercised"]
     cases, stats = topo_cases(tier)
     for st in stats:
         rep.add_tlc(st)
@@ -200,6 +325,7 @@ def c15(tier, replay):
         lay_by_key[key] = (l["lay"], idx)
     for f in include_name_cases():
         rep.violation(f, shadows.match("C15", f))
+    sack_leg(rep, tier)
     jobs = _chunks(cases, NCPU)
     with ProcessPoolExecutor(max_workers=NCPU) as ex:
         results = list(ex.map(topo_worker, jobs, [lay_by_key] * len(jobs), [{"scratch": scratch_dir("topo")}] * len(jobs)))
